@@ -28,7 +28,8 @@ type symFS struct {
 	reads     []string
 	failRead  int // fail the n-th ReadFile (1-based) with an I/O error; 0 = never
 	failFind  bool
-	failFindN int // fail the n-th directory listing (1-based); 0 = none
+	faultErr  error // the error an injected read fault returns (nil: a plain I/O error)
+	failFindN int   // fail the n-th directory listing (1-based); 0 = none
 	nFind     int
 	failWrite int // fail the n-th WriteFile; 0 = never
 	tornLen   int // bytes left behind by a failed write (-1: file untouched)
@@ -65,6 +66,9 @@ func (f *symFS) ReadFile(path string) ([]byte, error) {
 	f.nRead++
 	f.reads = append(f.reads, path)
 	if f.failRead == f.nRead {
+		if f.faultErr != nil {
+			return nil, f.faultErr
+		}
 		return nil, &ioFault{"read"}
 	}
 	data, ok := f.files[path]
